@@ -121,7 +121,7 @@ def run(v):
         return
     out = os.path.join(C.WORK, PID)
     fresh_out(out)
-    n = 18 if v.tier == "quick" else 180
+    n = 20 if v.tier == "quick" else 200
     rc, o = C.sh([C.harness_bin(HARNESS), "crash", "-mode", "trace", "-out", out, "-n", str(n), "-seed", str(v.seed)],
                  timeout=3000)
     if rc != 0:
@@ -145,7 +145,7 @@ def run(v):
                 "compaction, retention incl. L0/snapshot/TXID retention, passive checkpoint, restore, follow-mode restore, "
                 "TXID sidecar, baseline fetch after losing local state; and over ONE OPEN DB with directories removed and re-created "
                 "between publishes: ResetLocalState then syncs, ResetLocalState + behind-replica baseline fetch then syncs and "
-                "uploads, restore / sidecar into a re-created output directory with compaction and retention in between) over the real litestream code in a child process "
+                "uploads, publishes OVER existing final names each acknowledged (same snapshot twice, L0 re-upload after the replica position was set back, sidecar rewritten), restore / sidecar into a re-created output directory with compaction and retention in between) over the real litestream code in a child process "
                 "under strace -f -y; script parameters (rounds, rows, payload size, PRNG seed) drawn from the seeded PRNG; "
                 "the trace is reduced to litestream's own files (LTX, .tmp, restore output, -txid; SQLite's db/-wal/-shm "
                 "ignored) plus mkdir/rmdir (directories are objects with a generation per path in the model, so an fsync through a descriptor "
